@@ -37,4 +37,386 @@ pub(crate) mod verif_data {
             None => assert!(r.is_none(), "get: out-of-range index must be absent"),
         }
     }
+
+    // =====================================================================================
+    // C11 / C12 / C04: var, missing, missing_some with the lookup `get_key` by contract.
+    // Abstract presence function over the key alphabet {"a","b","c", any integer}: PRESENT[i] says
+    // whether the lookup finds something, PLAN_VAL[i] what it finds. Consistent for equal keys.
+    // =====================================================================================
+    pub(crate) static mut PRESENT: [bool; 4] = [false; 4];
+    pub(crate) static mut PLAN_VAL: [u64; 4] = [0; 4];
+    pub(crate) static mut LOOKUPS: [u8; 4] = [0; 4];
+    pub(crate) static mut LOOKUP_DATA_OK: bool = true;
+    pub(crate) static mut OUTER: *const Value = std::ptr::null();
+    fn key_idx(b: u8) -> usize {
+        match b {
+            b'a' => 0,
+            b'b' => 1,
+            _ => 2,
+        }
+    }
+    /// contract stub for `get_key`: null / "" -> the entire data; otherwise the presence function.
+    pub(crate) fn get_key_stub(data: &Value, key: KeyType) -> Option<Value> {
+        if data as *const Value != unsafe { OUTER } {
+            unsafe { LOOKUP_DATA_OK = false };
+        }
+        let idx = match &key {
+            KeyType::Null => return Some(crate::verif_support::value_clone_shallow(data)),
+            KeyType::String(k) => {
+                let b = k.as_bytes();
+                if b.len() == 0 {
+                    return Some(crate::verif_support::value_clone_shallow(data));
+                }
+                key_idx(b[0])
+            }
+            KeyType::Number(_) => 3,
+        };
+        std::mem::forget(key);
+        unsafe {
+            LOOKUPS[idx] += 1;
+            if PRESENT[idx] {
+                Some(Value::Number(serde_json::Number::from(PLAN_VAL[idx])))
+            } else {
+                None
+            }
+        }
+    }
+    fn label(b: u8) -> Value {
+        let mut s = String::from("a");
+        unsafe { s.as_bytes_mut()[0] = b };
+        Value::String(s)
+    }
+    fn plan(pres: u8) {
+        let mut i = 0;
+        while i < 4 {
+            unsafe {
+                PRESENT[i] = (pres >> i) & 1 == 1;
+                PLAN_VAL[i] = kani::any();
+            }
+            i += 1;
+        }
+    }
+    fn is_label(v: &Value, b: u8) -> bool {
+        match v {
+            Value::String(s) => s.len() == 1 && s.as_bytes()[0] == b,
+            _ => false,
+        }
+    }
+
+    // ---- var
+    /// kkind: 0 = "a", 1 = integer (any i64), 2 = null, 3 = "" , 4 = bool (bad key), 5 = 1.5 (bad key)
+    pub(crate) fn body_var(nargs: usize, kkind: u8, pres: u8) {
+        plan(pres);
+        let d: u64 = kani::any();
+        let dflt: u64 = kani::any();
+        let data = MD::new(Value::Number(serde_json::Number::from(d)));
+        unsafe { OUTER = &*data as *const Value };
+        let key = MD::new(match kkind {
+            0 => label(b'a'),
+            1 => Value::Number(serde_json::Number::from(kani::any::<i64>())),
+            2 => Value::Null,
+            3 => Value::String(String::new()),
+            4 => Value::Bool(true),
+            _ => Value::Number(serde_json::Number::from_f64(1.5).unwrap()),
+        });
+        let default = MD::new(Value::Number(serde_json::Number::from(dflt)));
+        let mut args: Vec<&Value> = Vec::with_capacity(2);
+        if nargs >= 1 {
+            args.push(&*key);
+        }
+        if nargs >= 2 {
+            args.push(&*default);
+        }
+        let args = MD::new(args);
+        let r = MD::new(var(&data, &args));
+        kani::cover!(true, "returned");
+        let as_u64 = |r: &Result<Value, Error>| match r {
+            Ok(Value::Number(n)) => n.as_u64(),
+            _ => None,
+        };
+        if nargs == 0 || kkind == 2 || kkind == 3 {
+            assert!(as_u64(&r) == Some(d), "var: no key / null / \"\" must return the entire data");
+        } else if kkind >= 4 {
+            assert!(r.is_err(), "var: keys must be strings, integers or null");
+        } else {
+            let idx = if kkind == 0 { 0 } else { 3 };
+            if (pres >> idx) & 1 == 1 {
+                assert!(as_u64(&r) == Some(unsafe { PLAN_VAL[idx] }), "var: a present value must be returned unchanged, in preference to the default");
+            } else if nargs >= 2 {
+                assert!(as_u64(&r) == Some(dflt), "var: absent => the supplied default, as given (already evaluated; never re-interpreted)");
+            } else {
+                assert!(matches!(&*r, Ok(Value::Null)), "var: absent and no default => null");
+            }
+            assert!(unsafe { LOOKUPS[idx] } == 1 && unsafe { LOOKUP_DATA_OK }, "var: exactly one lookup, against the data");
+        }
+    }
+    macro_rules! var_harness {
+        ($name:ident, $nargs:expr, $kkind:expr, $pres:expr) => {
+            #[cfg_attr(kani, kani::proof)]
+            #[cfg_attr(kani, kani::unwind(8))]
+            #[cfg_attr(kani, kani::stub(<serde_json::Value as std::clone::Clone>::clone, crate::verif_support::value_clone_shallow))]
+            #[cfg_attr(kani, kani::stub(crate::op::data::get_key, get_key_stub))]
+            #[cfg_attr(kani, kani::stub(crate::value::Parsed::from_value, crate::value::Parsed::verif_from_value_stub))]
+            #[cfg_attr(kani, kani::stub(crate::value::Parsed::evaluate, crate::value::Parsed::verif_evaluate_stub))]
+            #[cfg_attr(kani, kani::stub(std::fmt::format, crate::verif_support::fmt_stub))]
+            pub(crate) fn $name() {
+                body_var($nargs, $kkind, $pres);
+            }
+        };
+    }
+//@GENERATED-VAR
+    //@ob name=C11.var.0.str.p0 harness=k_c11_var_0_str_p0 props=C11,C04,C01 tier=quick strength=bounded bound="0 operands; key kind str (integer keys: every i64); lookup present-pattern 0b0; data, found value and default symbolic numbers" fns=op::data::var stubs=5 timeout=300 cutdrop=1 group=medium
+    //@ desc="var: operand-less / null / \"\" => entire data; present value (whatever it is) wins over the default; absent => the default AS GIVEN (the parser is never applied to it: C04) else null; bad key kinds => error; exactly one lookup against the data (lookup by contract)"
+    var_harness!(k_c11_var_0_str_p0, 0, 0, 0);
+    //@ob name=C11.var.1.str.p1 harness=k_c11_var_1_str_p1 props=C11,C04,C01 tier=quick strength=bounded bound="1 operands; key kind str (integer keys: every i64); lookup present-pattern 0b1; data, found value and default symbolic numbers" fns=op::data::var stubs=5 timeout=300 cutdrop=1 group=medium
+    //@ desc="var: operand-less / null / \"\" => entire data; present value (whatever it is) wins over the default; absent => the default AS GIVEN (the parser is never applied to it: C04) else null; bad key kinds => error; exactly one lookup against the data (lookup by contract)"
+    var_harness!(k_c11_var_1_str_p1, 1, 0, 1);
+    //@ob name=C11.var.1.str.p0 harness=k_c11_var_1_str_p0 props=C11,C04,C01 tier=quick strength=bounded bound="1 operands; key kind str (integer keys: every i64); lookup present-pattern 0b0; data, found value and default symbolic numbers" fns=op::data::var stubs=5 timeout=300 cutdrop=1 group=medium
+    //@ desc="var: operand-less / null / \"\" => entire data; present value (whatever it is) wins over the default; absent => the default AS GIVEN (the parser is never applied to it: C04) else null; bad key kinds => error; exactly one lookup against the data (lookup by contract)"
+    var_harness!(k_c11_var_1_str_p0, 1, 0, 0);
+    //@ob name=C11.var.2.str.p1 harness=k_c11_var_2_str_p1 props=C11,C04,C01 tier=quick strength=bounded bound="2 operands; key kind str (integer keys: every i64); lookup present-pattern 0b1; data, found value and default symbolic numbers" fns=op::data::var stubs=5 timeout=300 cutdrop=1 group=medium
+    //@ desc="var: operand-less / null / \"\" => entire data; present value (whatever it is) wins over the default; absent => the default AS GIVEN (the parser is never applied to it: C04) else null; bad key kinds => error; exactly one lookup against the data (lookup by contract)"
+    var_harness!(k_c11_var_2_str_p1, 2, 0, 1);
+    //@ob name=C11.var.2.str.p0 harness=k_c11_var_2_str_p0 props=C11,C04,C01 tier=quick strength=bounded bound="2 operands; key kind str (integer keys: every i64); lookup present-pattern 0b0; data, found value and default symbolic numbers" fns=op::data::var stubs=5 timeout=300 cutdrop=1 group=medium
+    //@ desc="var: operand-less / null / \"\" => entire data; present value (whatever it is) wins over the default; absent => the default AS GIVEN (the parser is never applied to it: C04) else null; bad key kinds => error; exactly one lookup against the data (lookup by contract)"
+    var_harness!(k_c11_var_2_str_p0, 2, 0, 0);
+    //@ob name=C11.var.2.int.p8 harness=k_c11_var_2_int_p8 props=C11,C04,C01 tier=quick strength=bounded bound="2 operands; key kind int (integer keys: every i64); lookup present-pattern 0b1000; data, found value and default symbolic numbers" fns=op::data::var stubs=5 timeout=300 cutdrop=1 group=medium
+    //@ desc="var: operand-less / null / \"\" => entire data; present value (whatever it is) wins over the default; absent => the default AS GIVEN (the parser is never applied to it: C04) else null; bad key kinds => error; exactly one lookup against the data (lookup by contract)"
+    var_harness!(k_c11_var_2_int_p8, 2, 1, 8);
+    //@ob name=C11.var.2.int.p0 harness=k_c11_var_2_int_p0 props=C11,C04,C01 tier=quick strength=bounded bound="2 operands; key kind int (integer keys: every i64); lookup present-pattern 0b0; data, found value and default symbolic numbers" fns=op::data::var stubs=5 timeout=300 cutdrop=1 group=medium
+    //@ desc="var: operand-less / null / \"\" => entire data; present value (whatever it is) wins over the default; absent => the default AS GIVEN (the parser is never applied to it: C04) else null; bad key kinds => error; exactly one lookup against the data (lookup by contract)"
+    var_harness!(k_c11_var_2_int_p0, 2, 1, 0);
+    //@ob name=C11.var.1.null.p0 harness=k_c11_var_1_null_p0 props=C11,C04,C01 tier=quick strength=bounded bound="1 operands; key kind null (integer keys: every i64); lookup present-pattern 0b0; data, found value and default symbolic numbers" fns=op::data::var stubs=5 timeout=300 cutdrop=1 group=medium
+    //@ desc="var: operand-less / null / \"\" => entire data; present value (whatever it is) wins over the default; absent => the default AS GIVEN (the parser is never applied to it: C04) else null; bad key kinds => error; exactly one lookup against the data (lookup by contract)"
+    var_harness!(k_c11_var_1_null_p0, 1, 2, 0);
+    //@ob name=C11.var.2.empty.p0 harness=k_c11_var_2_empty_p0 props=C11,C04,C01 tier=thorough strength=bounded bound="2 operands; key kind empty (integer keys: every i64); lookup present-pattern 0b0; data, found value and default symbolic numbers" fns=op::data::var stubs=5 timeout=300 cutdrop=1 group=medium
+    //@ desc="var: operand-less / null / \"\" => entire data; present value (whatever it is) wins over the default; absent => the default AS GIVEN (the parser is never applied to it: C04) else null; bad key kinds => error; exactly one lookup against the data (lookup by contract)"
+    var_harness!(k_c11_var_2_empty_p0, 2, 3, 0);
+    //@ob name=C11.var.1.bool.p0 harness=k_c11_var_1_bool_p0 props=C11,C04,C01 tier=quick strength=bounded bound="1 operands; key kind bool (integer keys: every i64); lookup present-pattern 0b0; data, found value and default symbolic numbers" fns=op::data::var stubs=5 timeout=300 cutdrop=1 group=medium
+    //@ desc="var: operand-less / null / \"\" => entire data; present value (whatever it is) wins over the default; absent => the default AS GIVEN (the parser is never applied to it: C04) else null; bad key kinds => error; exactly one lookup against the data (lookup by contract)"
+    var_harness!(k_c11_var_1_bool_p0, 1, 4, 0);
+    //@ob name=C11.var.2.float.p0 harness=k_c11_var_2_float_p0 props=C11,C04,C01 tier=thorough strength=bounded bound="2 operands; key kind float (integer keys: every i64); lookup present-pattern 0b0; data, found value and default symbolic numbers" fns=op::data::var stubs=5 timeout=300 cutdrop=1 group=medium
+    //@ desc="var: operand-less / null / \"\" => entire data; present value (whatever it is) wins over the default; absent => the default AS GIVEN (the parser is never applied to it: C04) else null; bad key kinds => error; exactly one lookup against the data (lookup by contract)"
+    var_harness!(k_c11_var_2_float_p0, 2, 5, 0);
+    //@ob name=C11.var.1.int.p8 harness=k_c11_var_1_int_p8 props=C11,C04,C01 tier=thorough strength=bounded bound="1 operands; key kind int (integer keys: every i64); lookup present-pattern 0b1000; data, found value and default symbolic numbers" fns=op::data::var stubs=5 timeout=300 cutdrop=1 group=medium
+    //@ desc="var: operand-less / null / \"\" => entire data; present value (whatever it is) wins over the default; absent => the default AS GIVEN (the parser is never applied to it: C04) else null; bad key kinds => error; exactly one lookup against the data (lookup by contract)"
+    var_harness!(k_c11_var_1_int_p8, 1, 1, 8);
+//@END-GENERATED-VAR
+
+    // ---- missing
+    /// shape 0: ["a","b"]   1: [["a","b"],"c"] (first operand an array supplies the whole list)
+    ///       2: ["a", null, 7]   3: [true] (bad key)   4: []   5: ["b","a","b"]
+    pub(crate) fn body_missing(shape: u8, pres: u8) {
+        plan(pres);
+        let data = MD::new(Value::Bool(true));
+        unsafe { OUTER = &*data as *const Value };
+        let a = MD::new(label(b'a'));
+        let b = MD::new(label(b'b'));
+        let c = MD::new(label(b'c'));
+        let nul = MD::new(Value::Null);
+        let seven = MD::new(Value::Number(serde_json::Number::from(7)));
+        let bad = MD::new(Value::Bool(true));
+        let inner = MD::new(Value::Array(vec![label(b'a'), label(b'b')]));
+        let mut args: Vec<&Value> = Vec::with_capacity(3);
+        // expected request list as (label byte | 0 = null | 1 = integer)
+        let mut want: [u8; 3] = [0; 3];
+        let mut wn = 0;
+        match shape {
+            0 => { args.push(&*a); args.push(&*b); want = [b'a', b'b', 0]; wn = 2; }
+            1 => { args.push(&*inner); args.push(&*c); want = [b'a', b'b', 0]; wn = 2; }
+            2 => { args.push(&*a); args.push(&*nul); args.push(&*seven); want = [b'a', 0, 1]; wn = 3; }
+            3 => { args.push(&*bad); }
+            4 => {}
+            _ => { args.push(&*b); args.push(&*a); args.push(&*b); want = [b'b', b'a', b'b']; wn = 3; }
+        }
+        let args = MD::new(args);
+        let r = MD::new(missing(&data, &args));
+        kani::cover!(true, "returned");
+        if shape == 3 {
+            assert!(r.is_err(), "missing: a boolean is not a key");
+            return;
+        }
+        let out = match &*r {
+            Ok(Value::Array(o)) => o,
+            _ => {
+                assert!(false, "missing must return an array");
+                return;
+            }
+        };
+        // exactly the requested non-null keys whose lookup finds nothing, in request order
+        let mut w = 0;
+        let mut j = 0;
+        while j < wn {
+            let k = want[j];
+            if k != 0 {
+                let idx = if k == 1 { 3 } else { key_idx(k) };
+                if (pres >> idx) & 1 == 0 {
+                    assert!(w < out.len(), "missing: a key that cannot be found was not reported");
+                    if k == 1 {
+                        assert!(matches!(&out[w], Value::Number(n) if n.as_u64() == Some(7)), "missing: keys are reported as requested, in order");
+                    } else {
+                        assert!(is_label(&out[w], k), "missing: keys are reported as requested, in order");
+                    }
+                    w += 1;
+                }
+            }
+            j += 1;
+        }
+        assert!(out.len() == w, "missing: a present (or null) key was reported as missing");
+        assert!(unsafe { LOOKUP_DATA_OK }, "missing: lookups must be against the data");
+    }
+    macro_rules! missing_harness {
+        ($name:ident, $shape:expr, $pres:expr) => {
+            #[cfg_attr(kani, kani::proof)]
+            #[cfg_attr(kani, kani::unwind(8))]
+            #[cfg_attr(kani, kani::stub(<serde_json::Value as std::clone::Clone>::clone, crate::verif_support::value_clone_shallow))]
+            #[cfg_attr(kani, kani::stub(crate::op::data::get_key, get_key_stub))]
+            #[cfg_attr(kani, kani::stub(std::fmt::format, crate::verif_support::fmt_stub))]
+            pub(crate) fn $name() {
+                body_missing($shape, $pres);
+            }
+        };
+    }
+//@GENERATED-MISSING
+    //@ob name=C12.missing.s0.p0 harness=k_c12_missing_s0_p0 props=C12,C01 tier=quick strength=bounded bound="key-list shape 0; present-pattern 0b0 over keys a,b,c,integer" fns=op::data::missing stubs=3 timeout=300 cutdrop=2 group=medium
+    //@ desc="missing: exactly the requested non-null keys whose lookup finds nothing, in request order; a first operand that is an array supplies the whole list; non-key kinds are errors (lookup by contract, the same one var uses)"
+    missing_harness!(k_c12_missing_s0_p0, 0, 0);
+    //@ob name=C12.missing.s0.p1 harness=k_c12_missing_s0_p1 props=C12,C01 tier=quick strength=bounded bound="key-list shape 0; present-pattern 0b1 over keys a,b,c,integer" fns=op::data::missing stubs=3 timeout=300 cutdrop=2 group=medium
+    //@ desc="missing: exactly the requested non-null keys whose lookup finds nothing, in request order; a first operand that is an array supplies the whole list; non-key kinds are errors (lookup by contract, the same one var uses)"
+    missing_harness!(k_c12_missing_s0_p1, 0, 1);
+    //@ob name=C12.missing.s0.p3 harness=k_c12_missing_s0_p3 props=C12,C01 tier=thorough strength=bounded bound="key-list shape 0; present-pattern 0b11 over keys a,b,c,integer" fns=op::data::missing stubs=3 timeout=300 cutdrop=2 group=medium
+    //@ desc="missing: exactly the requested non-null keys whose lookup finds nothing, in request order; a first operand that is an array supplies the whole list; non-key kinds are errors (lookup by contract, the same one var uses)"
+    missing_harness!(k_c12_missing_s0_p3, 0, 3);
+    //@ob name=C12.missing.s1.p2 harness=k_c12_missing_s1_p2 props=C12,C01 tier=quick strength=bounded bound="key-list shape 1; present-pattern 0b10 over keys a,b,c,integer" fns=op::data::missing stubs=3 timeout=300 cutdrop=2 group=medium
+    //@ desc="missing: exactly the requested non-null keys whose lookup finds nothing, in request order; a first operand that is an array supplies the whole list; non-key kinds are errors (lookup by contract, the same one var uses)"
+    missing_harness!(k_c12_missing_s1_p2, 1, 2);
+    //@ob name=C12.missing.s2.p0 harness=k_c12_missing_s2_p0 props=C12,C01 tier=quick strength=bounded bound="key-list shape 2; present-pattern 0b0 over keys a,b,c,integer" fns=op::data::missing stubs=3 timeout=300 cutdrop=2 group=medium
+    //@ desc="missing: exactly the requested non-null keys whose lookup finds nothing, in request order; a first operand that is an array supplies the whole list; non-key kinds are errors (lookup by contract, the same one var uses)"
+    missing_harness!(k_c12_missing_s2_p0, 2, 0);
+    //@ob name=C12.missing.s2.p9 harness=k_c12_missing_s2_p9 props=C12,C01 tier=thorough strength=bounded bound="key-list shape 2; present-pattern 0b1001 over keys a,b,c,integer" fns=op::data::missing stubs=3 timeout=300 cutdrop=2 group=medium
+    //@ desc="missing: exactly the requested non-null keys whose lookup finds nothing, in request order; a first operand that is an array supplies the whole list; non-key kinds are errors (lookup by contract, the same one var uses)"
+    missing_harness!(k_c12_missing_s2_p9, 2, 9);
+    //@ob name=C12.missing.s3.p0 harness=k_c12_missing_s3_p0 props=C12,C01 tier=quick strength=bounded bound="key-list shape 3; present-pattern 0b0 over keys a,b,c,integer" fns=op::data::missing stubs=3 timeout=300 cutdrop=2 group=medium
+    //@ desc="missing: exactly the requested non-null keys whose lookup finds nothing, in request order; a first operand that is an array supplies the whole list; non-key kinds are errors (lookup by contract, the same one var uses)"
+    missing_harness!(k_c12_missing_s3_p0, 3, 0);
+    //@ob name=C12.missing.s4.p0 harness=k_c12_missing_s4_p0 props=C12,C01 tier=quick strength=bounded bound="key-list shape 4; present-pattern 0b0 over keys a,b,c,integer" fns=op::data::missing stubs=3 timeout=300 cutdrop=2 group=medium
+    //@ desc="missing: exactly the requested non-null keys whose lookup finds nothing, in request order; a first operand that is an array supplies the whole list; non-key kinds are errors (lookup by contract, the same one var uses)"
+    missing_harness!(k_c12_missing_s4_p0, 4, 0);
+    //@ob name=C12.missing.s5.p1 harness=k_c12_missing_s5_p1 props=C12,C01 tier=thorough strength=bounded bound="key-list shape 5; present-pattern 0b1 over keys a,b,c,integer" fns=op::data::missing stubs=3 timeout=300 cutdrop=2 group=medium
+    //@ desc="missing: exactly the requested non-null keys whose lookup finds nothing, in request order; a first operand that is an array supplies the whole list; non-key kinds are errors (lookup by contract, the same one var uses)"
+    missing_harness!(k_c12_missing_s5_p1, 5, 1);
+    //@ob name=C12.missing.s5.p0 harness=k_c12_missing_s5_p0 props=C12,C01 tier=thorough strength=bounded bound="key-list shape 5; present-pattern 0b0 over keys a,b,c,integer" fns=op::data::missing stubs=3 timeout=300 cutdrop=2 group=medium
+    //@ desc="missing: exactly the requested non-null keys whose lookup finds nothing, in request order; a first operand that is an array supplies the whole list; non-key kinds are errors (lookup by contract, the same one var uses)"
+    missing_harness!(k_c12_missing_s5_p0, 5, 0);
+//@END-GENERATED-MISSING
+
+    // ---- missing_some
+    /// keys shape 0: ["a","b"]  1: ["a","a"]  2: ["a","b","a"]  3: []  4: ["a", null, "b"]
+    pub(crate) fn body_missing_some(shape: u8, pres: u8) {
+        plan(pres);
+        let data = MD::new(Value::Bool(true));
+        unsafe { OUTER = &*data as *const Value };
+        let threshold: u64 = kani::any();
+        let tv = MD::new(Value::Number(serde_json::Number::from(threshold)));
+        let (keys, want, wn): (Vec<Value>, [u8; 3], usize) = match shape {
+            0 => (vec![label(b'a'), label(b'b')], [b'a', b'b', 0], 2),
+            1 => (vec![label(b'a'), label(b'a')], [b'a', b'a', 0], 2),
+            2 => (vec![label(b'a'), label(b'b'), label(b'a')], [b'a', b'b', b'a'], 3),
+            3 => (vec![], [0, 0, 0], 0),
+            _ => (vec![label(b'a'), Value::Null, label(b'b')], [b'a', 0, b'b'], 3),
+        };
+        let kv = MD::new(Value::Array(keys));
+        let mut args: Vec<&Value> = Vec::with_capacity(2);
+        args.push(&*tv);
+        args.push(&*kv);
+        let args = MD::new(args);
+        let r = MD::new(missing_some(&data, &args));
+        kani::cover!(true, "returned");
+        let out = match &*r {
+            Ok(Value::Array(o)) => o,
+            _ => {
+                assert!(false, "missing_some(threshold, [keys]) must return an array");
+                return;
+            }
+        };
+        // spec: count the listed keys that are present (an absent key is never counted); met => [];
+        // otherwise the distinct missing keys in first-occurrence order
+        let mut count: u64 = 0;
+        let mut miss: [u8; 3] = [0; 3];
+        let mut mn = 0;
+        let mut j = 0;
+        while j < wn && count < threshold {
+            let k = want[j];
+            if k != 0 {
+                if (pres >> key_idx(k)) & 1 == 1 {
+                    count += 1;
+                } else {
+                    let mut seen = false;
+                    let mut q = 0;
+                    while q < mn {
+                        if miss[q] == k {
+                            seen = true;
+                        }
+                        q += 1;
+                    }
+                    if !seen {
+                        miss[mn] = k;
+                        mn += 1;
+                    }
+                }
+            }
+            j += 1;
+        }
+        if count >= threshold {
+            assert!(out.len() == 0, "missing_some: enough listed keys are present => empty array");
+        } else {
+            assert!(out.len() == mn, "missing_some: threshold not met => exactly the distinct missing keys (an absent key is never counted as present, however often it is listed)");
+            let mut q = 0;
+            while q < mn {
+                assert!(is_label(&out[q], miss[q]), "missing_some: missing keys in first-occurrence order");
+                q += 1;
+            }
+        }
+    }
+    macro_rules! missing_some_harness {
+        ($name:ident, $shape:expr, $pres:expr) => {
+            #[cfg_attr(kani, kani::proof)]
+            #[cfg_attr(kani, kani::unwind(8))]
+            #[cfg_attr(kani, kani::stub(<serde_json::Value as std::clone::Clone>::clone, crate::verif_support::value_clone_shallow))]
+            #[cfg_attr(kani, kani::stub(crate::op::data::get_key, get_key_stub))]
+            #[cfg_attr(kani, kani::stub(std::fmt::format, crate::verif_support::fmt_stub))]
+            pub(crate) fn $name() {
+                body_missing_some($shape, $pres);
+            }
+        };
+    }
+//@GENERATED-MISSING-SOME
+    //@ob name=C12.missing_some.s0.p0 harness=k_c12_missing_some_s0_p0 props=C12,C01 tier=quick strength=bounded bound="key-list shape 0; present-pattern 0b0; EVERY u64 threshold" fns=op::data::missing_some stubs=3 timeout=300 cutdrop=2 group=medium
+    //@ desc="missing_some: for every threshold, [] iff the number of listed keys that are present reaches it (an absent key never counts, however often listed); otherwise the distinct missing keys in first-occurrence order"
+    missing_some_harness!(k_c12_missing_some_s0_p0, 0, 0);
+    //@ob name=C12.missing_some.s0.p1 harness=k_c12_missing_some_s0_p1 props=C12,C01 tier=quick strength=bounded bound="key-list shape 0; present-pattern 0b1; EVERY u64 threshold" fns=op::data::missing_some stubs=3 timeout=300 cutdrop=2 group=medium
+    //@ desc="missing_some: for every threshold, [] iff the number of listed keys that are present reaches it (an absent key never counts, however often listed); otherwise the distinct missing keys in first-occurrence order"
+    missing_some_harness!(k_c12_missing_some_s0_p1, 0, 1);
+    //@ob name=C12.missing_some.s0.p3 harness=k_c12_missing_some_s0_p3 props=C12,C01 tier=thorough strength=bounded bound="key-list shape 0; present-pattern 0b11; EVERY u64 threshold" fns=op::data::missing_some stubs=3 timeout=300 cutdrop=2 group=medium
+    //@ desc="missing_some: for every threshold, [] iff the number of listed keys that are present reaches it (an absent key never counts, however often listed); otherwise the distinct missing keys in first-occurrence order"
+    missing_some_harness!(k_c12_missing_some_s0_p3, 0, 3);
+    //@ob name=C12.missing_some.s1.p0 harness=k_c12_missing_some_s1_p0 props=C12,C01 tier=quick strength=bounded bound="key-list shape 1; present-pattern 0b0; EVERY u64 threshold" fns=op::data::missing_some stubs=3 timeout=300 cutdrop=2 group=medium
+    //@ desc="missing_some: for every threshold, [] iff the number of listed keys that are present reaches it (an absent key never counts, however often listed); otherwise the distinct missing keys in first-occurrence order"
+    missing_some_harness!(k_c12_missing_some_s1_p0, 1, 0);
+    //@ob name=C12.missing_some.s1.p1 harness=k_c12_missing_some_s1_p1 props=C12,C01 tier=thorough strength=bounded bound="key-list shape 1; present-pattern 0b1; EVERY u64 threshold" fns=op::data::missing_some stubs=3 timeout=300 cutdrop=2 group=medium
+    //@ desc="missing_some: for every threshold, [] iff the number of listed keys that are present reaches it (an absent key never counts, however often listed); otherwise the distinct missing keys in first-occurrence order"
+    missing_some_harness!(k_c12_missing_some_s1_p1, 1, 1);
+    //@ob name=C12.missing_some.s2.p2 harness=k_c12_missing_some_s2_p2 props=C12,C01 tier=quick strength=bounded bound="key-list shape 2; present-pattern 0b10; EVERY u64 threshold" fns=op::data::missing_some stubs=3 timeout=300 cutdrop=2 group=medium
+    //@ desc="missing_some: for every threshold, [] iff the number of listed keys that are present reaches it (an absent key never counts, however often listed); otherwise the distinct missing keys in first-occurrence order"
+    missing_some_harness!(k_c12_missing_some_s2_p2, 2, 2);
+    //@ob name=C12.missing_some.s2.p0 harness=k_c12_missing_some_s2_p0 props=C12,C01 tier=thorough strength=bounded bound="key-list shape 2; present-pattern 0b0; EVERY u64 threshold" fns=op::data::missing_some stubs=3 timeout=300 cutdrop=2 group=medium
+    //@ desc="missing_some: for every threshold, [] iff the number of listed keys that are present reaches it (an absent key never counts, however often listed); otherwise the distinct missing keys in first-occurrence order"
+    missing_some_harness!(k_c12_missing_some_s2_p0, 2, 0);
+    //@ob name=C12.missing_some.s3.p0 harness=k_c12_missing_some_s3_p0 props=C12,C01 tier=quick strength=bounded bound="key-list shape 3; present-pattern 0b0; EVERY u64 threshold" fns=op::data::missing_some stubs=3 timeout=300 cutdrop=2 group=medium
+    //@ desc="missing_some: for every threshold, [] iff the number of listed keys that are present reaches it (an absent key never counts, however often listed); otherwise the distinct missing keys in first-occurrence order"
+    missing_some_harness!(k_c12_missing_some_s3_p0, 3, 0);
+    //@ob name=C12.missing_some.s4.p1 harness=k_c12_missing_some_s4_p1 props=C12,C01 tier=thorough strength=bounded bound="key-list shape 4; present-pattern 0b1; EVERY u64 threshold" fns=op::data::missing_some stubs=3 timeout=300 cutdrop=2 group=medium
+    //@ desc="missing_some: for every threshold, [] iff the number of listed keys that are present reaches it (an absent key never counts, however often listed); otherwise the distinct missing keys in first-occurrence order"
+    missing_some_harness!(k_c12_missing_some_s4_p1, 4, 1);
+//@END-GENERATED-MISSING-SOME
 }
